@@ -60,10 +60,10 @@ def load(key: str):
         return None
 
 
-def _prune(d: Path, keep: int = 1500) -> None:
+def _prune(d: Path, keep: int = 30000) -> None:
     """the cache holds the results for the trees seen lately: beyond `keep` entries the oldest go"""
     try:
-        if hash(os.getpid()) % 16:          # one store in sixteen looks
+        if os.getpid() % 64:                # one process in sixty-four looks
             return
         files = sorted(d.glob('*.json'), key=lambda p: p.stat().st_mtime)
         for p in files[:-keep]:
